@@ -364,7 +364,37 @@ def record_history(spec):
             trace["events"].append({"op": "roundtrip", "idx": [int(v) for v in idx.reshape(-1)], "lab": lab,
                                     "shapeok": o == "ok" and np.shape(res) == (3, 4), "shape": [3, 4], "argsok": True, "dt": "int64"})
 
+    def emitted(tb):
+        """what the modulator EMITS for every label, asked in every integer storage type of the index (arrays and
+        numpy scalars): the emitted constellation must be the recorded table (the table C16 derives its parameters from)"""
+        if not tb.tabok or not spec.get("emit") or M < 1:
+            return
+        labels = np.arange(M) if M <= 256 else np.concatenate([np.arange(128), rng.permutation(M)[:64], np.arange(M - 64, M)])
+        for t_ in IDX_DTYPES:
+            if t_ == "bool":
+                if sk != "BPSK":
+                    continue            # a bool array is a mask for table look-up
+                arr = labels.astype(bool)
+            elif M - 1 > np.iinfo(getattr(np, t_)).max:
+                continue
+            else:
+                arr = labels.astype(getattr(np, t_))
+            for form, arg, idxs in (("array", arr, labels), ("scalar", arr[-1], labels[-1:]), ("0-d array", np.array(arr[1 % len(arr)]), labels[1 % len(arr):1 % len(arr) + 1])):
+                o, res, argsok, frameok = invoke(obj.modulate, arg)
+                e = {"op": "mod", "idx": [int(v) for v in idxs], "out": o, "pts": [], "ptsok": False, "shapeok": False, "shape": list(np.shape(arg)),
+                     "layout": form, "argsok": argsok, "frameok": frameok, "ownok": True, "dt": t_}
+                if o == "ok":
+                    o2, pc = outcome(lambda: tb.to_coords(np.asarray(res).reshape(-1)))
+                    if o2 == "ok":
+                        e["pts"], e["ptsok"] = pc
+                    e["ptsok"] = bool(e["ptsok"] and len(e["pts"]) == len(e["idx"]))
+                    if not e["ptsok"]:
+                        e["pts"] = [0] * len(e["idx"]) if sk == "PSK" else [[0, 0]] * len(e["idx"])
+                    e["shapeok"] = tuple(np.shape(res)) == tuple(np.shape(arg))
+                trace["events"].append(e)
+
     copies(tb, ph0)
+    emitted(tb)
     calls(tb)
     for ph in phases[1:]:
         o, _ = outcome(lambda: obj.setPhaseOffset(ph))
@@ -375,6 +405,7 @@ def record_history(spec):
         trace["events"].append(ev)
         tables.append(tb)
         copies(tb, ph)
+        emitted(tb)
         calls(tb)
     return trace, (obj, tables)
 
